@@ -72,6 +72,16 @@ public:
 	mutable long count = 0;
 };
 
+// a user mixin whose hook is an ordinary member function taking the arguments as non-const lvalue references (the form
+// the documentation shows), on a by-value prototype: it must be called like the variadic template form above
+template <typename B>
+class MixinGate : public B
+{
+public:
+	bool mixinBeforeDispatch(int & a, std::string & s) const { (void)a; (void)s; ++count; return true; }
+	mutable long count = 0;
+};
+
 struct IF
 {
 	virtual ~IF() {}
@@ -93,6 +103,8 @@ struct IF
 struct PFilter { using Mixins = eventpp::MixinList<eventpp::MixinFilter>; using ArgumentPassingMode = eventpp::ArgumentPassingExcludeEvent; };
 struct PFilterCount { using Mixins = eventpp::MixinList<eventpp::MixinFilter, MixinCount>; using ArgumentPassingMode = eventpp::ArgumentPassingExcludeEvent; };
 struct PCountFilter { using Mixins = eventpp::MixinList<MixinCount, eventpp::MixinFilter>; using ArgumentPassingMode = eventpp::ArgumentPassingExcludeEvent; };
+struct PFilterGate { using Mixins = eventpp::MixinList<eventpp::MixinFilter, MixinGate>; using ArgumentPassingMode = eventpp::ArgumentPassingExcludeEvent; };
+struct PGateFilter { using Mixins = eventpp::MixinList<MixinGate, eventpp::MixinFilter>; using ArgumentPassingMode = eventpp::ArgumentPassingExcludeEvent; };
 struct PHeterFilter { using Mixins = eventpp::MixinList<eventpp::MixinHeterFilter>; };
 struct PContinue
 {
@@ -279,7 +291,7 @@ struct Adapt : IF
 	long count() override { return 0; }
 };
 
-const int kConfigs = 10;
+const int kConfigs = 12;
 IF * makeImpl(int cfg)
 {
 	using DA = eventpp::EventDispatcher<int, void (int, std::string), PFilter>;
@@ -301,7 +313,9 @@ IF * makeImpl(int cfg)
 	case 6: return new Cont();
 	case 7: return new Adapt();
 	case 8: return new ContVal<false>();
-	default: return new ContVal<true>();
+	case 9: return new ContVal<true>();
+	case 10: return new Homo<eventpp::EventDispatcher<int, void (int, std::string), PFilterGate>, true, 1, false>();
+	default: return new Homo<eventpp::EventQueue<int, void (int, std::string), PGateFilter>, true, 2, true>();
 	}
 }
 
